@@ -14,6 +14,7 @@ use specs::world::EntitiesRes;
 
 use crate::bfs::{Outcome, System as McSystem};
 use crate::comps::*;
+use crate::kinds::{Kind, Track};
 use crate::util::{catch, fold64};
 
 #[derive(Clone, Debug, PartialEq, Eq, PartialOrd, Ord, Hash, Serialize, Deserialize)]
@@ -133,7 +134,7 @@ pub struct Hist<A, B, C> {
 }
 
 struct SetupSys<A, B, C>(PhantomData<(A, B, C)>);
-impl<'a, A: Tok, B: Tok, C: Tok> specs::System<'a> for SetupSys<A, B, C> {
+impl<'a, A: Kind, B: Kind, C: Kind> specs::System<'a> for SetupSys<A, B, C> {
     type SystemData = (ReadStorage<'a, A>, WriteStorage<'a, B>, WriteStorage<'a, C>);
     fn run(&mut self, _: Self::SystemData) {}
 }
@@ -195,6 +196,7 @@ struct Run<'h, A, B, C> {
     m: Model,
     shared: Arc<Mutex<Shared>>,
     viol: Option<String>,
+    readers: [Option<specs::shrev::ReaderId<specs::storage::ComponentEvent>>; 3],
     tr: u64,
     /// counters: [stale probes hitting an index occupied by another live
     /// entity, stale probes total, live probes]
@@ -213,7 +215,7 @@ macro_rules! fail {
     }};
 }
 
-impl<'h, A: Tok, B: Tok, C: Tok> Run<'h, A, B, C> {
+impl<'h, A: Kind, B: Kind, C: Kind> Run<'h, A, B, C> {
     fn new(h: &'h Hist<A, B, C>) -> Self {
         let mut w = World::new();
         Self::reg::<A>(&mut w, h.reg[0]);
@@ -242,6 +244,7 @@ impl<'h, A: Tok, B: Tok, C: Tok> Run<'h, A, B, C> {
             },
             shared: Arc::new(Mutex::new(Shared::default())),
             viol: None,
+            readers: [None, None, None],
             tr: 0,
             counters: [0; 3],
         }
@@ -879,9 +882,22 @@ impl<'h, A: Tok, B: Tok, C: Tok> Run<'h, A, B, C> {
             self.check_comps::<C>(2);
         }
         if self.h.prop == Prop::C03 {
-            self.probe_stale::<A>(0);
-            self.probe_stale::<B>(1);
-            self.probe_stale::<C>(2);
+            // dead handles first: on change-tracking storages they must not leave a trace
+            // in the event channel either (nothing was read or changed)
+            self.drain_events::<A>(0);
+            self.drain_events::<B>(1);
+            self.drain_events::<C>(2);
+            self.probe_stale::<A>(0, true);
+            self.probe_stale::<B>(1, true);
+            self.probe_stale::<C>(2, true);
+            for (k, evs) in [self.drain_events::<A>(0), self.drain_events::<B>(1), self.drain_events::<C>(2)].into_iter().enumerate() {
+                if !evs.is_empty() {
+                    fail!(self, Prop::C03, "stale-event: accesses through dead handles left events {:?} in the channel of storage {}", evs, k);
+                }
+            }
+            self.probe_stale::<A>(0, false);
+            self.probe_stale::<B>(1, false);
+            self.probe_stale::<C>(2, false);
             self.probe_pair::<A, B>(0, 1);
             self.probe_pair::<B, C>(1, 2);
             // contents must be exactly the model's, before and after the probes
@@ -889,6 +905,18 @@ impl<'h, A: Tok, B: Tok, C: Tok> Run<'h, A, B, C> {
             self.check_comps_as::<B>(1, Prop::C03);
             self.check_comps_as::<C>(2, Prop::C03);
         }
+    }
+
+    fn drain_events<T: Kind>(&mut self, k: usize) -> Vec<specs::storage::ComponentEvent> {
+        if T::TRACK == Track::None {
+            return vec![];
+        }
+        let mut st = self.w.write_storage::<T>();
+        if self.readers[k].is_none() {
+            self.readers[k] = T::register_reader(&mut st);
+            return vec![];
+        }
+        T::read_events(&st, self.readers[k].as_mut().unwrap())
     }
 
     fn check_alive(&mut self) {
@@ -973,10 +1001,13 @@ impl<'h, A: Tok, B: Tok, C: Tok> Run<'h, A, B, C> {
     }
 
     /// C03: every handle-taking access path, for every slot.
-    fn probe_stale<T: Tok>(&mut self, k: usize) {
+    fn probe_stale<T: Kind>(&mut self, k: usize, dead_pass: bool) {
         for s in 0..self.m.st.len() {
             let e = self.m.handles[s];
             let dead = self.m.st[s] == St::Dead;
+            if dead != dead_pass {
+                continue;
+            }
             let model = if dead { None } else { self.m.comp[k].get(&(s as u8)).copied() };
             let model_v = model.map(|v| if T::ZST { 0 } else { v });
             if dead {
@@ -1212,7 +1243,7 @@ impl<'h, A: Tok, B: Tok, C: Tok> Run<'h, A, B, C> {
             self.key_storage::<B>(&mut hsh, &canon_val);
             self.key_storage::<C>(&mut hsh, &canon_val);
         }
-        if self.h.alphabet >= Alphabet::E3 {
+        {
             // queue content with slots renamed canonically
             for a in &self.m.queue {
                 let r = |s: &u8| rank[*s as usize] as u8;
@@ -1297,6 +1328,11 @@ impl<'h, A: Tok, B: Tok, C: Tok> Run<'h, A, B, C> {
                 }
             }
         }
+        if self.h.alphabet == Alphabet::E2 && self.h.prop == Prop::C05 && budget >= 1 {
+            // entities born inside maintain (possibly on an index freed by the same maintain)
+            v.push(Op::LazyExecCreateNow);
+            v.push(Op::LazyExecCreateWith(0));
+        }
         if self.h.alphabet == Alphabet::E3 {
             for s in 0..n {
                 for k in 0..2 {
@@ -1359,7 +1395,7 @@ impl KeyHasher {
     }
 }
 
-impl<A: Tok, B: Tok, C: Tok> Hist<A, B, C>
+impl<A: Kind, B: Kind, C: Kind> Hist<A, B, C>
 {
     fn run_inner(&self, ops: &[Op], full: bool) -> Outcome<Op> {
         let _junk: Vec<Box<[u8; 24]>> = if self.perturb {
@@ -1404,7 +1440,7 @@ impl<A: Tok, B: Tok, C: Tok> Hist<A, B, C>
     }
 }
 
-impl<A: Tok, B: Tok, C: Tok> McSystem for Hist<A, B, C>
+impl<A: Kind, B: Kind, C: Kind> McSystem for Hist<A, B, C>
 {
     type Op = Op;
 
@@ -1452,7 +1488,7 @@ pub struct Config {
 type Runner = fn(&Config, Prop, bool, &[Op]) -> Outcome<Op>;
 type Explorer = fn(&Config, Prop, &Limits) -> (Explored<Op>, Vec<(Vec<Op>, String)>);
 
-fn mk<A: Tok, B: Tok, C: Tok>(c: &Config, prop: Prop, perturb: bool) -> Hist<A, B, C> {
+fn mk<A: Kind, B: Kind, C: Kind>(c: &Config, prop: Prop, perturb: bool) -> Hist<A, B, C> {
     Hist {
         alphabet: c.alphabet,
         prop,
@@ -1465,12 +1501,12 @@ fn mk<A: Tok, B: Tok, C: Tok>(c: &Config, prop: Prop, perturb: bool) -> Hist<A, 
     }
 }
 
-fn run_cfg<A: Tok, B: Tok, C: Tok>(c: &Config, prop: Prop, perturb: bool, ops: &[Op]) -> Outcome<Op>
+fn run_cfg<A: Kind, B: Kind, C: Kind>(c: &Config, prop: Prop, perturb: bool, ops: &[Op]) -> Outcome<Op>
 {
     mk::<A, B, C>(c, prop, perturb).run(ops, true)
 }
 
-fn explore_cfg<A: Tok, B: Tok, C: Tok>(c: &Config, prop: Prop, lim: &Limits) -> (Explored<Op>, Vec<(Vec<Op>, String)>)
+fn explore_cfg<A: Kind, B: Kind, C: Kind>(c: &Config, prop: Prop, lim: &Limits) -> (Explored<Op>, Vec<(Vec<Op>, String)>)
 {
     let sys = mk::<A, B, C>(c, prop, false);
     let ex = explore(&sys, lim);
